@@ -1,6 +1,7 @@
 import SaphyrVerif.Lemmas.C10
 import SaphyrVerif.Lemmas.C09
 import SaphyrVerif.Lemmas.C10_Gate
+import SaphyrVerif.Lemmas.C10_Pipe
 /-!
 # C10 — I/O faults and the input-size cap are never swallowed (reader and writer)
 
@@ -635,6 +636,92 @@ example : (Gate.drain 8192 20 { inner := [.data [0xFF, 0xFE, 0x61, 0, 0x3A, 0, 0
     (Gate.drain 8192 20 { inner := [.data [0xFF, 0xFE, 0x61, 0, 0x3A, 0, 0x20, 0, 0x78, 0, 0x79, 0, 0x7A, 0]], limit := some 14 }).2.1 = none := by decide
 
 end Gate
+
+/-! ### the pipeline: the gate owns the limit, `ChunkedChars` behind it has none (fixes cbb7ef9, 784e913)
+
+Since fix 784e913 `buffered_input_from_reader_with_limit` gives `ChunkedChars` no cap of its own; since fix cbb7ef9
+UTF-8 input with a byte-order mark is handed on by the decoder as it is (minus the mark), like unmarked UTF-8.
+So for UTF-8 the pipeline is `ChunkedChars` (cap-less) over the gate's results (`asSched`), and for every
+encoding everything behind the gate is a function of the gate's results. -/
+
+section Pipeline
+open SaphyrVerif.Lemmas.C10Gate SaphyrVerif.Lemmas.C10Pipe SaphyrVerif.Spec.Utf8
+
+/-- (T) pipeline_cap_inactive_below (`cap_inactive_below` for the pipeline).  For EVERY byte string in EVERY
+encoding (UTF-8 with or without mark, UTF-16, cut inside a character or not), every schedule of the caller's
+reader (failing calls, empty reads), every sequence of non-empty `read` calls: if the RAW input has at most `cap`
+bytes, the consumer of the gate sees exactly the results it sees with no cap at all — so everything behind the
+gate (decoder, `BufReader`, the cap-less `ChunkedChars`, the scanner) behaves as without a cap; spelled out for
+`ChunkedChars` reading the gate's results directly. -/
+theorem pipeline_cap_inactive_below (sched : Sched) (cap : Nat) (reqs : List Nat) (hpos : ∀ n ∈ reqs, 0 < n)
+    (hfit : (flat sched).length ≤ cap) :
+    (Gate.run { inner := sched, limit := some cap } reqs).1 = (Gate.run { inner := sched } reqs).1 ∧
+    collectAll { reader := asSched (Gate.run { inner := sched, limit := some cap } reqs).1 } =
+      collectAll { reader := asSched (Gate.run { inner := sched } reqs).1 } := by
+  have h := run_cap_inactive cap reqs { inner := sched, limit := some cap } hpos rfl rfl (by simpa using hfit)
+  have h' : (Gate.run { inner := sched, limit := some cap } reqs).1 = (Gate.run { inner := sched } reqs).1 := h
+  exact ⟨h', by rw [h']⟩
+
+/-- (T) pipeline_cap_refusal_file_too_large (extends `gate_cap_refusal_recorded` to a refusal in the middle of a code
+point).  The reader delivers MORE than `cap` raw bytes (any partition into non-empty read results) whose first `cap`
+bytes are the beginning of a well-formed UTF-8 text — possibly ending in the middle of a character; the cap-less
+`ChunkedChars` reads the gate's results (more than `cap` calls).  Up to the first `None` of `next_char` it yields
+exactly the characters completed within the limit (`take cap = encode chars ++ cut`, `cut` the bytes of the
+character the limit falls into, which begins no well-formed character) and the cell holds `FileTooLarge` — not
+`unexpected EOF in middle of UTF-8 codepoint`: the continuation loop stores the `Err` it receives.  `collect`
+(which goes on after a synthetic break) ends with the cell set, and with `FileTooLarge` when the last line is not
+a directive line. -/
+theorem pipeline_cap_refusal_file_too_large (sched : Sched) (cap : Nat) (reqs : List Nat) (hc : chunked sched = true)
+    (hpos : ∀ n ∈ reqs, 0 < n) (hlen : cap < (flat sched).length) (hlong : cap < reqs.length)
+    (cs : List Char) (tail : List Nat) (hwf : (flat sched).take cap ++ tail = encode cs)
+    (fuel : Nat) (hfuel : cap < fuel) :
+    let cc : CC := { reader := asSched (Gate.run { inner := sched, limit := some cap } reqs).1 }
+    (collectRaw fuel cc).2.cell = some kFileTooLarge ∧
+    (∃ cut, (flat sched).take cap = encode (collectRaw fuel cc).1 ++ cut ∧ (cut ≠ [] → ¬ StartsWithChar cut)) ∧
+    (collect fuel cc).2.cell ≠ none ∧
+    ((collectRaw fuel cc).2.inDirectiveLine = false → (collect fuel cc).2.cell = some kFileTooLarge) := by
+  intro cc
+  obtain ⟨chunks, m, e1, e2, ⟨rest, e3, e4⟩, e5⟩ := raw_gate_refuses_above_cap sched cap reqs hc hpos hlen
+  obtain ⟨m', rfl⟩ : ∃ m', m = m' + 1 := ⟨m - 1, by have := e5 hlong; omega⟩
+  have hrest := e4 (by omega)
+  subst hrest
+  simp only [List.append_nil] at e3
+  have hreader : cc.reader = chunks.map .data ++ .fail kFileTooLarge :: asSched (List.replicate m' (.err kFileTooLarge)) := by
+    show asSched _ = _
+    rw [e1, asSched_oks_errs]
+  have hflat : flat (chunks.map RItem.data) = (flat sched).take cap := by rw [flat_map_data, e3]
+  have hl : (flat (chunks.map RItem.data)).length < fuel := by
+    rw [hflat, List.length_take]; omega
+  have hgood : (flatDecode fuel (flat (chunks.map RItem.data))).2.1 ≠ some kInvalidData := by
+    rw [hflat]
+    exact flatDecode_prefix_ok fuel cs _ tail hwf (by rw [List.length_take]; omega)
+  obtain ⟨c1, c2⟩ := collect_fault_exact kFileTooLarge (by decide) _ fuel cc _ hreader (chunked_map_data chunks e2) rfl hl hgood
+  obtain ⟨s1, s2, s3⟩ := flatDecode_spec fuel ((flat sched).take cap) (by rw [List.length_take]; omega)
+  rw [hflat] at c1
+  have hchars : ((collectRaw fuel cc).1).length < fuel := by
+    have := collectRaw_len fuel cc
+    have hb : (flat cc.reader).length = (List.take cap (flat sched)).length := by
+      rw [hreader, flat_append, hflat]; simp [flat, flat_asSched_errs]
+    rw [hb, List.length_take] at this
+    omega
+  obtain ⟨_, g1, g2, g3⟩ := collect_seg_general fuel cc hchars
+  refine ⟨c2, ⟨_, by rw [c1]; exact s1, s3⟩, ?_, ?_⟩
+  · have := g2 (by rw [c2]; rfl)
+    intro hn; rw [hn] at this; simp at this
+  · intro hd; rw [g3 hd, c2]
+
+/-- (E) `ab€` (5 bytes) under cap 3 — the limit falls INSIDE `€`: `ab` is delivered, the cell holds `FileTooLarge`
+(not `UnexpectedEof`), 4 bytes taken from the reader -/
+example : (collectAll { reader := asSched (Gate.run { inner := [.data [0x61, 0x62], .data [0xE2, 0x82, 0xAC]], limit := some 3 } [8, 8, 8, 8]).1 }).1 = ['a', 'b'] ∧
+    (collectAll { reader := asSched (Gate.run { inner := [.data [0x61, 0x62], .data [0xE2, 0x82, 0xAC]], limit := some 3 } [8, 8, 8, 8]).1 }).2.cell = some kFileTooLarge ∧
+    (Gate.run { inner := [.data [0x61, 0x62], .data [0xE2, 0x82, 0xAC]], limit := some 3 } [8, 8, 8, 8]).2.taken = 4 ∧
+    [0x61, 0x62, 0xE2] ++ [0x82, 0xAC] = encode ['a', 'b', '€'] := by decide
+/-- (E) UTF-16LE `a: 日本` (12 raw bytes, 10 once decoded) under cap 12: the gate's results are those without a cap
+(the former `C10-utf16-decoded-cap-rejects-small-input` class fits by its RAW size) -/
+example : (Gate.run { inner := [.data [0xFF, 0xFE, 0x61, 0, 0x3A, 0, 0x20, 0], .data [0xE5, 0x65, 0x2C, 0x67]], limit := some 12 } [8, 8, 8]).1 =
+    (Gate.run { inner := [.data [0xFF, 0xFE, 0x61, 0, 0x3A, 0, 0x20, 0], .data [0xE5, 0x65, 0x2C, 0x67]] } [8, 8, 8]).1 := by decide
+
+end Pipeline
 
 /-! ### writer -/
 
